@@ -11,6 +11,7 @@ import (
 	"strconv"
 	"strings"
 	"sync"
+	"sync/atomic"
 
 	"github.com/mithrandie/csvq/lib/file"
 	"github.com/mithrandie/csvq/lib/json"
@@ -1206,20 +1207,19 @@ func loadViewFromLTSVFile(ctx context.Context, flags *option.Flags, fp *file.Rea
 
 func readRecordSet(ctx context.Context, reader RecordReader, fileSize int64) (RecordSet, error) {
 	var err error
+	var recvErr error
 	recordSet := make(RecordSet, 0, fileLoadingPreparedRecordSetCap)
 	rowch := make(chan []text.RawText, fileLoadingBuffer)
 	panicCh := make(chan bool, 1)
-	pos := 0
+	var readBytes int64 = 0
 
 	wg := sync.WaitGroup{}
 
 	wg.Add(1)
 	go func() {
 		defer func() {
-			if err == nil {
-				if panicReport := recover(); panicReport != nil {
-					err = NewFatalError(panicReport)
-				}
+			if panicReport := recover(); panicReport != nil {
+				recvErr = NewFatalError(panicReport)
 			}
 			panicCh <- true
 			wg.Done()
@@ -1240,7 +1240,8 @@ func readRecordSet(ctx context.Context, reader RecordReader, fileSize int64) (Re
 				}
 			}
 
-			if 0 < fileSize && 0 < pos && len(recordSet) == fileLoadingPreparedRecordSetCap && int64(pos) < fileSize {
+			pos := atomic.LoadInt64(&readBytes)
+			if 0 < fileSize && 0 < pos && len(recordSet) == fileLoadingPreparedRecordSetCap && pos < fileSize {
 				l := int((float64(fileSize) / float64(pos)) * fileLoadingPreparedRecordSetCap * 1.2)
 				newSet := make(RecordSet, fileLoadingPreparedRecordSetCap, l)
 				copy(newSet, recordSet)
@@ -1284,7 +1285,7 @@ func readRecordSet(ctx context.Context, reader RecordReader, fileSize int64) (Re
 
 			if 0 < fileSize && i < fileLoadingPreparedRecordSetCap {
 				for j := range row {
-					pos += len(row[j])
+					atomic.AddInt64(&readBytes, int64(len(row[j])))
 				}
 			}
 
@@ -1305,6 +1306,9 @@ func readRecordSet(ctx context.Context, reader RecordReader, fileSize int64) (Re
 	wg.Wait()
 	close(panicCh)
 
+	if err == nil {
+		err = recvErr
+	}
 	return recordSet, err
 }
 
@@ -1349,7 +1353,8 @@ func loadViewFromJsonLinesFile(ctx context.Context, flags *option.Flags, fp *fil
 
 	rowch := make(chan txjson.Object, fileLoadingBuffer)
 	panicCh := make(chan bool, 1)
-	pos := 0
+	var recvErr error
+	var readBytes int64 = 0
 
 	reader := jsonl.NewReader(fp)
 	reader.SetUseInteger(false)
@@ -1359,10 +1364,8 @@ func loadViewFromJsonLinesFile(ctx context.Context, flags *option.Flags, fp *fil
 	wg.Add(1)
 	go func() {
 		defer func() {
-			if err == nil {
-				if panicReport := recover(); panicReport != nil {
-					err = NewFatalError(panicReport)
-				}
+			if panicReport := recover(); panicReport != nil {
+				recvErr = NewFatalError(panicReport)
 			}
 			panicCh <- true
 			wg.Done()
@@ -1381,7 +1384,8 @@ func loadViewFromJsonLinesFile(ctx context.Context, flags *option.Flags, fp *fil
 				}
 			}
 
-			if 0 < fileSize && 0 < pos && len(objectList) == fileLoadingPreparedRecordSetCap && int64(pos) < fileSize {
+			pos := atomic.LoadInt64(&readBytes)
+			if 0 < fileSize && 0 < pos && len(objectList) == fileLoadingPreparedRecordSetCap && pos < fileSize {
 				l := int((float64(fileSize) / float64(pos)) * fileLoadingPreparedRecordSetCap * 1.2)
 				newSet := make([]txjson.Object, fileLoadingPreparedRecordSetCap, l)
 				copy(newSet, objectList)
@@ -1451,7 +1455,7 @@ func loadViewFromJsonLinesFile(ctx context.Context, flags *option.Flags, fp *fil
 			}
 
 			if 0 < fileSize && i < fileLoadingPreparedRecordSetCap {
-				pos = reader.Pos()
+				atomic.StoreInt64(&readBytes, int64(reader.Pos()))
 			}
 
 			select {
@@ -1471,6 +1475,9 @@ func loadViewFromJsonLinesFile(ctx context.Context, flags *option.Flags, fp *fil
 	wg.Wait()
 	close(panicCh)
 
+	if err == nil {
+		err = recvErr
+	}
 	if err != nil {
 		return nil, err
 	}
